@@ -2368,9 +2368,13 @@ class HandlerBox(FullBox):
         src.read(12)  # const unsigned int(32)[3] reserved = 0;
         name_len = rv["position"] + rv["size"] - src.tell()
         name_bytes = src.read(name_len)
+        # the name normally ends with one NUL, but there are files where the
+        # box ends with the last character and files with padding
+        rv["name_nuls"] = 0
         while name_len and name_bytes[-1] == 0:
             name_bytes = name_bytes[:-1]
             name_len -= 1
+            rv["name_nuls"] += 1
         rv["name"] = str(name_bytes, 'utf-8')
         return rv
 
@@ -2379,7 +2383,11 @@ class HandlerBox(FullBox):
         w.write('I', 'pre_defined', value=0)
         w.write('S4', 'handler_type')
         w.write(None, 'reserved', value=(b'\0' * 12))  # reserved = 0
-        w.write('S0', 'name')
+        name_nuls = getattr(self, 'name_nuls', 1)
+        if name_nuls is None:
+            name_nuls = 1
+        w.write(None, 'name', value=(
+            bytes(self.name, 'utf-8') + (b'\0' * name_nuls)))
 
 
 @fourcc('mehd')
